@@ -109,9 +109,11 @@ PROPS = {
         "clause": "Decision kernel: ClockDomain::compatible(a,b) <=> a or b is domain-less or a and b are the same domain (symmetric, reflexive; different named domains and named-vs-default "
                   "are incompatible); Explicit(i) and Inferred(i) are indistinguishable to compatible, to merge(..).domain_id() and to check_clock_domain; merge: None is the identity, a "
                   "named domain is never lost, the result is one of the operands, later crossings stay visible; check_clock_domain (real body text) records exactly one "
-                  "mismatch_clock_domain error <=> the domains are incompatible and the statement is not inside unsafe(cdc), asking the unsafe table once about the statement token "
-                  "(Kani, loop-free, symbolic ids = complete).",
-        "assumptions": ["not covered: that every assignment/connection site calls the check (call-site completeness), domain inference and propagation through conv/expression.rs",
+                  "mismatch_clock_domain error <=> the domains are incompatible and the statement is not inside unsafe(cdc), asking the unsafe table once about the statement token; "
+                  "TokenRange::include is exactly 'position inside the closed range [beg, end] of that file' (so an unsafe(cdc) block covers its own tokens and nothing else); "
+                  "check_assign_clock_domain infers a domain only for an Implicit destination (Explicit/Inferred/None destinations are never rewritten), then logs exactly the mismatches of "
+                  "destination vs rhs, vs the always_ff clock and vs each enclosing condition (Kani, loop-free, symbolic ids = complete; RangeTable lookup and the condition list bounded, labelled).",
+        "assumptions": ["not covered: that every assignment/connection site calls the checks (call-site completeness), domain propagation through conv/expression.rs, the thread-local wrapper of unsafe_table",
                         "harness stand-ins (record calls only) for Context, Comptime, Token, TokenRange, unsafe_table::contains, AnalyzerError::mismatch_clock_domain, ClockDomain::to_string"],
     },
     "C21": {
@@ -143,8 +145,9 @@ PROPS = {
         "level": "proof",
         "clause": "Clause 'values cross the host/component boundary with every bit and every X/Z mask bit intact at every width': HostContext::{set_input, set_input_masked, svc_write_output, "
                   "svc_port_words_len, add_port_role} copy every payload word and every mask word of exactly the addressed port (stale mask cleared when none is given, dirty set, all other "
-                  "ports and fields untouched, out-of-range or non-output index ignored), words_for(w) == max(1, ceil(w/64)), mask_top_word clears exactly the bits >= width - for every "
-                  "width and word count (Verus, unbounded); component Value::{as_i64, unknown_at, from_u64, from_bits, to_port_words, to_port_mask_xz} against bit-level contracts (Kani; resizing "
+                  "ports and fields untouched, out-of-range or non-output index ignored), words_for(w) == max(1, ceil(w/64)), mask_top_word clears exactly the bits >= width; the call-site "
+                  "glue RuntimeComponent::stage_inputs leaves, for every expression input, port.words == the value's payload words and port.mask_xz == the value's X/Z mask words whichever "
+                  "setter it chooses - for every width and word count (Verus, unbounded); component Value::{as_i64, unknown_at, from_u64, from_bits, to_port_words, to_port_mask_xz} against bit-level contracts (Kani; resizing "
                   "constructors at fixed widths, labelled bounded).",
         "assumptions": ["not covered: hook timing relative to flip-flop commit, the WebAssembly transport (no wasm32 target), HostValue::as_vrl and the raw-pointer FFI side, call_method",
                         "observation (not a contract): parameters/method arguments are two-state by design; Value::as_i64 ignores mask_xz"],
